@@ -1,6 +1,7 @@
 //! zv — harness front door: translator (`extract`), tree dump (`dump`), real-library runs (`gen`, ...).
 mod dump;
 mod extract_restr;
+mod extract_send;
 mod extract_sites;
 mod extract_tables;
 mod obs;
@@ -29,6 +30,9 @@ fn cmd_extract(repo: &str, out: &str) -> ExitCode {
     let mut changed = vec![];
     if write_if_changed(&out.join("Restrictions.lean"), &extract_restr::extract(&helpers)) {
         changed.push("Restrictions.lean");
+    }
+    if write_if_changed(&out.join("Send.lean"), &extract_send::extract(&helpers)) {
+        changed.push("Send.lean");
     }
     if write_if_changed(&out.join("Sites.lean"), &extract_sites::extract(repo)) {
         changed.push("Sites.lean");
